@@ -263,7 +263,7 @@ pub open spec fn spec_tile_offsets(tm: &Tilemap) -> (int, int) {
 # ------------------------------------------------------------------------------------------------
 UD_FRAME = ("        final(self).layers@.len() == old(self).layers@.len(),\n")
 UNITS["userdata"] = {
-    "prelude_sections": ["errors", "rgba_only"],
+    "prelude_sections": ["errors", "rgba_only", "reader"],
     "items": [
         {"kind": "struct", "file": "user_data", "name": "UserData", "keep": None, "rewrites": [("image::Rgba<u8>", "Rgba<u8>")]},
         {"kind": "struct", "file": "layer", "name": "LayerData", "keep": ["user_data"]},
@@ -306,8 +306,21 @@ impl CelsData {
                      "            None => old(self).at(cel_id.frame as int, cel_id.layer as int) is None && forall|f: int, l: int| #[trigger] final(self).at(f, l) == old(self).at(f, l),\n"
                      "        },")},
         {"kind": "enum", "file": "parse", "name": "UserDataContext", "attrs": "#[derive(Clone, Copy)]\n"},
-        {"kind": "struct", "file": "parse", "name": "ParseInfo", "keep": ["layers", "framedata", "tags", "sprite_user_data", "user_data_context", "slices"],
-         "rewrites": [("cel::CelsData<RawPixels>", "CelsData")]},
+        {"kind": "verbatim", "text": """
+/// opaque payloads of the chunks parse_frame only passes through
+#[verifier::external_body] pub struct ColorPalette { _p: core::marker::PhantomData<u8> }
+#[verifier::external_body] pub struct ColorProfile { _p: core::marker::PhantomData<u8> }
+#[verifier::external_body] pub struct ExternalFile { _p: core::marker::PhantomData<u8> }
+#[verifier::external_body] pub struct ExternalFilesById { _p: core::marker::PhantomData<u8> }
+#[verifier::external_body] pub struct TilesetRaw { _p: core::marker::PhantomData<u8> }
+#[verifier::external_body] pub struct TilesetsById { _p: core::marker::PhantomData<u8> }
+impl TilesetsById {
+    #[verifier::external_body] pub fn add(&mut self, tileset: TilesetRaw) { unimplemented!() }
+}
+"""},
+        {"kind": "enum", "file": "file", "name": "PixelFormat", "attrs": "#[derive(Clone, Copy)]\n"},
+        {"kind": "struct", "file": "parse", "name": "ParseInfo", "keep": ["palette", "color_profile", "layers", "framedata", "frame_times", "tags", "external_files", "tilesets", "sprite_user_data", "user_data_context", "slices"],
+         "rewrites": [("cel::CelsData<RawPixels>", "CelsData"), ("Arc<palette::ColorPalette>", "Arc<ColorPalette>"), ("color_profile::ColorProfile", "ColorProfile"), ("TilesetsById<RawPixels>", "TilesetsById")]},
         {"kind": "verbatim", "text": """
 /// ParseInfo invariant: a cel context always names an existing frame (established by add_cel)
 pub open spec fn ctx_wf(p: &ParseInfo) -> bool {
@@ -368,24 +381,28 @@ pub open spec fn attach_post(o: &ParseInfo, n: &ParseInfo, ctx: UserDataContext,
 """},
         {"kind": "fn", "file": "parse", "name": "add_layer", "impl_of": "ParseInfo",
          "requires": "        old(self).layers@.len() < u32::MAX,",
-         "ensures": ("        final(self).layers@ == old(self).layers@.push(layer_data),\n"
+         "ensures": ("        final(self).frame_times@ == old(self).frame_times@, final(self).framedata.data.len() == old(self).framedata.data.len(),\n"
+                     "        final(self).layers@ == old(self).layers@.push(layer_data),\n"
                      "        final(self).user_data_context == Some(UserDataContext::LayerIndex(old(self).layers@.len() as u32)),\n"
                      "        final(self).tags == old(self).tags, final(self).slices@ == old(self).slices@, final(self).sprite_user_data == old(self).sprite_user_data,\n"
                      "        final(self).framedata == old(self).framedata,")},
         {"kind": "fn", "file": "parse", "name": "add_slice", "impl_of": "ParseInfo",
          "requires": "        old(self).slices@.len() < u32::MAX,",
-         "ensures": ("        final(self).slices@ == old(self).slices@.push(slice),\n"
+         "ensures": ("        final(self).frame_times@ == old(self).frame_times@, final(self).framedata.data.len() == old(self).framedata.data.len(),\n"
+                     "        final(self).slices@ == old(self).slices@.push(slice),\n"
                      "        final(self).user_data_context == Some(UserDataContext::SliceIndex(old(self).slices@.len() as u32)),\n"
                      "        final(self).tags == old(self).tags, final(self).layers@ == old(self).layers@, final(self).sprite_user_data == old(self).sprite_user_data,\n"
                      "        final(self).framedata == old(self).framedata,")},
         {"kind": "fn", "file": "parse", "name": "add_tags", "impl_of": "ParseInfo",
-         "ensures": ("        final(self).tags == Some(tags),\n"
+         "ensures": ("        final(self).frame_times@ == old(self).frame_times@, final(self).framedata.data.len() == old(self).framedata.data.len(),\n"
+                     "        final(self).tags == Some(tags),\n"
                      "        final(self).user_data_context == Some(UserDataContext::TagIndex(0)),\n"
                      "        final(self).slices@ == old(self).slices@, final(self).layers@ == old(self).layers@, final(self).sprite_user_data == old(self).sprite_user_data,\n"
                      "        final(self).framedata == old(self).framedata,")},
         {"kind": "fn", "file": "parse", "name": "add_cel", "impl_of": "ParseInfo", "ret": "r",
          "sig_rewrites": [("cel::RawCel<RawPixels>", "RawCel")], "rules": ["R1", "R6", "R11"],
-         "ensures": ("        final(self).layers@ == old(self).layers@, final(self).tags == old(self).tags, final(self).slices@ == old(self).slices@,\n"
+         "ensures": ("        final(self).frame_times@ == old(self).frame_times@, final(self).framedata.data.len() == old(self).framedata.data.len(),\n"
+                     "        final(self).layers@ == old(self).layers@, final(self).tags == old(self).tags, final(self).slices@ == old(self).slices@,\n"
                      "        final(self).sprite_user_data == old(self).sprite_user_data,\n"
                      "        ctx_wf(old(self)) ==> ctx_wf(final(self)),\n"
                      "        r is Ok ==> final(self).user_data_context == Some(UserDataContext::CelId(CelId { frame: frame_id, layer: cel.data.layer_index }))\n"
@@ -393,7 +410,8 @@ pub open spec fn attach_post(o: &ParseInfo, n: &ParseInfo, ctx: UserDataContext,
                      "        r is Err ==> final(self).user_data_context == old(self).user_data_context,")},
         {"kind": "fn", "file": "parse", "name": "set_tag_user_data", "impl_of": "ParseInfo", "ret": "r", "rules": ["R1", "R6", "R11"],
          "requires": "        old(self).tags is Some ==> old(self).tags->0@.len() <= 65535,",
-         "ensures": ("        final(self).layers@ == old(self).layers@, final(self).slices@ == old(self).slices@, final(self).sprite_user_data == old(self).sprite_user_data,\n"
+         "ensures": ("        final(self).frame_times@ == old(self).frame_times@, final(self).framedata.data.len() == old(self).framedata.data.len(),\n"
+                     "        final(self).layers@ == old(self).layers@, final(self).slices@ == old(self).slices@, final(self).sprite_user_data == old(self).sprite_user_data,\n"
                      "        final(self).framedata == old(self).framedata,\n"
                      "        r is Ok <==> (old(self).tags is Some && (tag_index as int) < old(self).tags->0@.len()),\n"
                      "        r is Ok ==> final(self).tags is Some && final(self).tags->0@.len() == old(self).tags->0@.len()\n"
@@ -405,11 +423,116 @@ pub open spec fn attach_post(o: &ParseInfo, n: &ParseInfo, ctx: UserDataContext,
         {"kind": "fn", "file": "parse", "name": "add_user_data", "impl_of": "ParseInfo", "ret": "r", "rules": ["R1", "R6", "R11"],
          "requires": ("        old(self).tags is Some ==> old(self).tags->0@.len() <= 65535,\n"
                       "        ctx_wf(old(self)),"),
-         "ensures": ("        ctx_wf(final(self)),\n"
+         "ensures": ("        final(self).frame_times@ == old(self).frame_times@, final(self).framedata.data.len() == old(self).framedata.data.len(),\n"
+                     "        ctx_wf(final(self)),\n"
                      "        old(self).user_data_context is None ==> r is Err,\n"
                      "        final(self).layers@.len() == old(self).layers@.len(), final(self).slices@.len() == old(self).slices@.len(),\n"
                      "        r is Err ==> final(self).user_data_context == old(self).user_data_context,\n"
                      "        old(self).user_data_context is Some ==> attach_post(old(self), final(self), old(self).user_data_context->0, user_data, r is Ok),")},
+        {"kind": "enum", "file": "parse", "name": "ChunkType"},
+        {"kind": "struct", "file": "parse", "name": "Chunk", "keep": None},
+        {"kind": "const", "file": "parse", "name": "FRAME_HEADER_SIZE"},
+        {"kind": "verbatim", "text": """
+/// the chunks of a frame as Chunk::read_all delivers them (framing: x_truncation / k_check_chunk_bytes)
+pub uninterp spec fn spec_chunks(data: Seq<u8>, pos: int, count: u32, budget: i64) -> Seq<Chunk>;
+pub uninterp spec fn cel_layer_of(d: Seq<u8>) -> u16;
+impl Chunk {
+    #[verifier::external_body]
+    fn read_all(count: u32, bytes_available: i64, reader: &mut AseReader) -> (r: Result<Vec<Chunk>>)
+        ensures final(reader).data() == old(reader).data(),
+            r is Ok ==> r->Ok_0@ == spec_chunks(old(reader).data(), old(reader).pos(), count, bytes_available),
+    { unimplemented!() }
+}
+impl ParseInfo {
+    #[verifier::external_body]
+    fn add_external_files(&mut self, files: Vec<ExternalFile>)
+        ensures final(self).layers@ == old(self).layers@, final(self).slices@ == old(self).slices@, tags_same(final(self).tags, old(self).tags),
+            final(self).user_data_context == old(self).user_data_context, final(self).sprite_user_data == old(self).sprite_user_data,
+            cels_same(&final(self).framedata, &old(self).framedata), final(self).framedata.data.len() == old(self).framedata.data.len(),
+            final(self).frame_times@ == old(self).frame_times@, (final(self).palette is Some) == (old(self).palette is Some),
+    { unimplemented!() }
+}
+/// the chunk decoders: their own contracts are the units dec_*; here only what the dispatch needs
+pub mod color_profile { use super::*; #[verifier::external_body] pub fn parse_chunk(data: &[u8]) -> Result<ColorProfile> { unimplemented!() } }
+pub mod palette { use super::*;
+    #[verifier::external_body] pub fn parse_chunk(data: &[u8]) -> Result<ColorPalette> { unimplemented!() }
+    #[verifier::external_body] pub fn parse_old_chunk_04(data: &[u8]) -> Result<ColorPalette> { unimplemented!() }
+    #[verifier::external_body] pub fn parse_old_chunk_11(data: &[u8]) -> Result<ColorPalette> { unimplemented!() } }
+pub mod layer { use super::*; #[verifier::external_body] pub fn parse_chunk(data: &[u8]) -> Result<LayerData> { unimplemented!() } }
+pub mod cel { use super::*;
+    #[verifier::external_body] pub fn parse_chunk(data: &[u8], pixel_format: PixelFormat) -> (r: Result<RawCel>)
+        ensures r is Ok ==> r->Ok_0.data.layer_index == cel_layer_of(data@),
+    { unimplemented!() } }
+pub mod tags { use super::*;
+    #[verifier::external_body] pub fn parse_chunk(data: &[u8]) -> (r: Result<Vec<Tag>>)
+        ensures r is Ok ==> r->Ok_0@.len() <= 65535,
+    { unimplemented!() } }
+pub mod slice { use super::*; #[verifier::external_body] pub fn parse_chunk(data: &[u8]) -> Result<Slice> { unimplemented!() } }
+pub mod user_data { use super::*; #[verifier::external_body] pub fn parse_userdata_chunk(data: &[u8]) -> Result<UserData> { unimplemented!() } }
+impl ExternalFile { #[verifier::external_body] pub fn parse_chunk(data: &[u8]) -> Result<Vec<ExternalFile>> { unimplemented!() } }
+#[verifier::external_body] pub fn tileset_parse_chunk(data: &[u8], pixel_format: PixelFormat) -> Result<TilesetRaw> { unimplemented!() }
+
+/// C10 / C07 glue: how ONE chunk changes the attachment context (ctx, number of layers, number of slices).
+/// Ignorable chunks, colour profile, new palette, external files and tilesets leave it untouched; tags set it
+/// only in frame 0; a user-data record advances a tag context and leaves every other context in place.
+pub open spec fn glue_step(s: (Option<UserDataContext>, int, int), c: Chunk, frame_id: u16) -> (Option<UserDataContext>, int, int) {
+    match c.chunk_type {
+        ChunkType::Layer => (Some(UserDataContext::LayerIndex(s.1 as u32)), s.1 + 1, s.2),
+        ChunkType::Cel => (Some(UserDataContext::CelId(CelId { frame: frame_id, layer: cel_layer_of(c.data@) })), s.1, s.2),
+        ChunkType::Slice => (Some(UserDataContext::SliceIndex(s.2 as u32)), s.1, s.2 + 1),
+        ChunkType::Tags => (if frame_id == 0 { Some(UserDataContext::TagIndex(0)) } else { s.0 }, s.1, s.2),
+        ChunkType::OldPalette04 => (Some(UserDataContext::OldPalette), s.1, s.2),
+        ChunkType::OldPalette11 => (Some(UserDataContext::OldPalette), s.1, s.2),
+        ChunkType::UserData => (match s.0 { Some(UserDataContext::TagIndex(t)) => Some(UserDataContext::TagIndex((t + 1) as u16)), other => other }, s.1, s.2),
+        _ => s,
+    }
+}
+pub open spec fn glue_fold(cs: Seq<Chunk>, i: int, frame_id: u16, s0: (Option<UserDataContext>, int, int)) -> (Option<UserDataContext>, int, int)
+    decreases i,
+{
+    if i <= 0 { s0 } else { glue_step(glue_fold(cs, i - 1, frame_id, s0), cs[i - 1], frame_id) }
+}
+pub open spec fn glue_view(p: &ParseInfo) -> (Option<UserDataContext>, int, int) {
+    (p.user_data_context, p.layers@.len() as int, p.slices@.len() as int)
+}
+"""},
+        {"kind": "verbatim", "text": """
+/// number of chunks and the chunk list of the frame whose header starts at offset o
+pub open spec fn frame_count(d: Seq<u8>, o: int) -> u32 {
+    if le_u32(d, o + 12) == 0 { le_u16(d, o + 6) as u32 } else { le_u32(d, o + 12) as u32 }
+}
+pub open spec fn frame_chunks(d: Seq<u8>, o: int) -> Seq<Chunk> {
+    spec_chunks(d, o + 16, frame_count(d, o), (le_u32(d, o) - 16) as i64)
+}
+"""},
+        {"kind": "fn", "file": "parse", "name": "parse_frame", "ret": "r", "rules": ["R1", "R6", "R11", "R13"],
+         "sig_rewrites": [("<R: Read>", ""), ("AseReader<R>", "AseReader")],
+         "body_rewrites": [("Tileset::<RawPixels>::parse_chunk(", "tileset_parse_chunk("),
+                           ("for chunk in chunks {", "for chunk in it: chunks {")],
+         "requires": ("        (frame_id as int) < old(parse_info).frame_times@.len(), (frame_id as int) < old(parse_info).framedata.data.len(),\n"
+                      "        old(parse_info).tags is Some ==> old(parse_info).tags->0@.len() <= 65535,\n"
+                      "        ctx_wf(old(parse_info)),\n"
+                      "        // fewer than 2^32 layers / slices in total (the context stores their index as u32)\n"
+                      "        old(reader).pos() + 16 <= old(reader).data().len() ==> old(parse_info).layers@.len() + frame_chunks(old(reader).data(), old(reader).pos()).len() < u32::MAX\n"
+                      "            && old(parse_info).slices@.len() + frame_chunks(old(reader).data(), old(reader).pos()).len() < u32::MAX,"),
+         "ensures": ("        r is Ok ==> ({ let d = old(reader).data(); let o = old(reader).pos(); let cs = frame_chunks(d, o);\n"
+                     "            &&& o + 16 <= d.len() && le_u16(d, o + 4) == 0xF1FA\n"
+                     "            &&& final(parse_info).frame_times@.len() == old(parse_info).frame_times@.len()\n"
+                     "            &&& final(parse_info).frame_times@[frame_id as int] as int == le_u16(d, o + 8)\n"
+                     "            &&& glue_view(final(parse_info)) == glue_fold(cs, cs.len() as int, frame_id, glue_view(old(parse_info))) }),"),
+         "loops": {1: ("        invariant\n"
+                       "            it.snapshot@.remaining() == cs, it.index@ <= cs.len(),\n"
+                       "            cs == frame_chunks(old(reader).data(), old(reader).pos()),\n"
+                       "            old(parse_info).layers@.len() + cs.len() < u32::MAX, old(parse_info).slices@.len() + cs.len() < u32::MAX,\n"
+                       "            parse_info.layers@.len() <= old(parse_info).layers@.len() + it.index@, parse_info.slices@.len() <= old(parse_info).slices@.len() + it.index@,\n"
+                       "            parse_info.frame_times@.len() == old(parse_info).frame_times@.len(), (frame_id as int) < parse_info.frame_times@.len(),\n"
+                       "            parse_info.frame_times@[frame_id as int] == frame_duration_ms,\n"
+                       "            (frame_id as int) < parse_info.framedata.data.len(),\n"
+                       "            parse_info.tags is Some ==> parse_info.tags->0@.len() <= 65535,\n"
+                       "            ctx_wf(parse_info),\n"
+                       "            glue_view(parse_info) == glue_fold(cs, it.index@ as int, frame_id, glue_view(old(parse_info))),")},
+         "hints": [("for chunk in it: chunks", "    let ghost cs = chunks@;", "before"),
+                   ("let Chunk { chunk_type, data } = chunk;", "        assert(chunk == cs[it.index@ as int]);\n        assert(glue_fold(cs, it.index@ as int + 1, frame_id, glue_view(old(parse_info))) == glue_step(glue_fold(cs, it.index@ as int, frame_id, glue_view(old(parse_info))), cs[it.index@ as int], frame_id));", "before")]},
     ],
 }
 
@@ -698,8 +821,8 @@ pub open spec fn key_len(flags: u32) -> int { 20 + (if key_has9(flags) { 16int }
                      "        r is Ok ==> ({ let d = old(reader).data(); let o = old(reader).pos(); let h = r->Ok_0;\n"
                      "            h.tile_id as int == le_u32(d, o) && h.x_flip as int == le_u32(d, o + 4) && h.y_flip as int == le_u32(d, o + 8)\n"
                      "            && h.rotate_90cw as int == le_u32(d, o + 12) && final(reader).pos() == o + 16 }),")},
+        {"kind": "const", "file": "parse", "name": "CHUNK_HEADER_SIZE"},
         {"kind": "fn", "file": "parse", "name": "check_chunk_bytes", "ret": "r", "rules": ["R1", "R6", "R11"],
-         "body_rewrites": [("CHUNK_HEADER_SIZE", "6usize")],
          "ensures": "        r is Ok <==> (chunk_size >= 6 && chunk_size as int <= bytes_available as int),"},
         {"kind": "fn", "file": "palette", "name": "scale_6bit_to_8bit", "ret": "r", "rules": ["R1", "R6", "R11"],
          "ensures": ("        r is Ok <==> color < 64,\n"
